@@ -5,7 +5,7 @@
    feeder channel and the buffered messages / errors.  The subscription consumer's waiting points weigh more
    while a wake-up (buffered subscription or closed wait channel) is available. *)
 From Coq Require Import List Arith Bool Lia.
-From SV Require Import C12.Lts C12.LtsProofs C12.Tac C12.PCons C12.PConsProofs C12.PConsInv1 C12.PConsInv2 C12.PConsSafety.
+From SV Require Import C12.Lts C12.LtsProofs C12.Tac C12.PCons C12.PConsProofs C12.PConsInv_01 C12.PConsInv_02 C12.PConsSafety.
 Import ListNotations.
 
 Module PCM.
